@@ -6,3 +6,5 @@ export PYTHONDONTWRITEBYTECODE=1
 /venv/bin/python tools/emit_lean.py
 cd lean
 lake build GettsimVerif GettsimVerif.DriverOps 2>&1 | tail -5
+# native build of the model driver (Mathlib-free; the T4 tie uses it for speed; without it the checks use the interpreter)
+lake build gvdriver 2>&1 | tail -2 || true
